@@ -389,6 +389,15 @@ static Mut mutate(Rng &r, const Spec &s) {
 	case 15: { if (s.has_extents) { RawHDU &e = hd.back(); long w = r.coin(0.5) ? 2 * nd + 1 : std::max(1, 2 * nd - 1); set_card(e, "NAXIS1", card_int("NAXIS1", w)); e.data.resize((size_t)w * 8, 0); m.name = "EXTENTS-wrong-length"; m.expect_valid = true; } else { m.name = "valid"; m.expect_valid = true; } break; }
 	case 27: { // group / heap parameters in an image HDU: PCOUNT and GCOUNT change where cfitsio looks for the pixels and how large it takes the data unit to be
 		size_t d = r.below(hd.size()); long pv[] = {1, 7, 360, 2147483647L, 99999999999L, -1}; long gv[] = {0, 2, 1000000L, -1};
+		if (hd.size() > 1 && r.coin(0.35)) {
+			// a data unit of negative size: cfitsio places the next HDU at datastart + round2880(|BITPIX|/8 * GCOUNT * (PCOUNT + NAXIS1)) without rejecting negative
+			// counts; -2880 is the start of the very header just read (the walk over the extensions then finds the same HDU again), -5760 the record before it
+			d = 1 + r.below(hd.size() - 1); long n1 = 0; card_long(hd[d], "NAXIS1", n1); long back = r.coin(0.7) ? 1 : 2; long want = 2880 * back + 2880 + 400 + (long)r.below(2000); // |size| in (2880*back + 2879, 2880*(back+1) + 2879]
+			if (r.coin(0.5) && n1 > 0 && want / (8 * n1) >= 1 && (want / (8 * n1)) * 8 * n1 > 2880 * back + 2879) set_card(hd[d], "GCOUNT", card_int("GCOUNT", -(want / (8 * n1))));
+			else set_card(hd[d], "PCOUNT", card_int("PCOUNT", -(want / 8) - n1));
+			if (r.coin(0.3)) set_card(hd[d], "EXTNAME", card_str("EXTNAME", "KNOTS9")); // (the reader has to walk over it rather than stop at it)
+			m.name = "PCOUNT/GCOUNT-value:data-unit-of-negative-size"; break;
+		}
 		if (r.coin(0.6)) { long v = pv[r.below(6)]; if (d == 0) hd[0].cards.push_back(card_int("PCOUNT", v)); else set_card(hd[d], "PCOUNT", card_int("PCOUNT", v)); }
 		else { long v = gv[r.below(4)]; if (d == 0) hd[0].cards.push_back(card_int("GCOUNT", v)); else set_card(hd[d], "GCOUNT", card_int("GCOUNT", v)); }
 		if (d == 0 && r.coin(0.5)) hd[0].cards.push_back(card_log("GROUPS", true));
